@@ -1012,6 +1012,10 @@ def has_const_problem(n):
                 exact = a + b if n[1] == "+" else (a - b if n[1] == "-" else a * b)
                 if exact < I64MIN or exact > I64MAX:
                     return True      # documented compile error: integer overflow
+                if n[1] == "*" and abs(a) * abs(b) > I64MAX:
+                    # the compiler tests magnitudes: a product of exactly -2^63 counts as an overflow too
+                    # (tests/test-rules.c asserts it for 4611686018427387904 * -2)
+                    return True
     for c in n[1:]:
         if isinstance(c, tuple) and c and isinstance(c[0], str):
             if has_const_problem(c):
